@@ -89,6 +89,9 @@ def check_features(case, ctx):
                                      f"{name}.get(None) of a feature bound before a second simulate() differs from a fresh feature", feature=name):
                         continue
             idxs = list(range(Tn))
+            if rnd > 0:
+                # single steps need not be asked in the hedger's order: skip forward (0, 2, 4, ...), then come back (1, 3, ...)
+                idxs = list(range(0, Tn, 2)) + list(range(1, Tn, 2))
             if name in ("time_to_maturity", "expiry_time"):
                 idxs += list(range(-Tn, 0))
             for i in idxs:
@@ -290,15 +293,15 @@ SUBS = [
     Sub("features", check_features,
         rule="derivative (6 types) x underlier (8 types, default and drawn parameters, dt in {1/250,1/52,0.01,1/12}) x "
              "1..9 steps x 1..5 paths; all applicable features x all steps. Non-trivial: at least 3 time points.",
-        strategy=lambda tier: feature_case(), examples={"quick": 800, "thorough": 8000}),
+        strategy=lambda tier: feature_case(), examples={"quick": 1600, "thorough": 16000}),
     Sub("branches", check_branches,
         rule="scenario with a state-independent input set and model in {Linear, MLP, Naked, BlackScholes}; same model "
              "evaluated through the vectorised branch and (wrapped to ignore an extra prev_hedge input) the stepwise "
              "branch. Non-trivial: H>=2 or a hedge that varies across steps.",
-        strategy=lambda tier: branch_case(), examples={"quick": 800, "thorough": 8000}),
+        strategy=lambda tier: branch_case(), examples={"quick": 1600, "thorough": 16000}),
     Sub("feedback", check_feedback,
         rule="one hedger with a recording user model used for 1..3 rounds with changing n_paths (1..6), steps (2..7) and "
              "number of hedging instruments H (1..3); prev_hedge placed at a drawn position among the inputs. "
              "Non-trivial: H>=2 in some round or at least two rounds.",
-        strategy=lambda tier: feedback_case(), examples={"quick": 800, "thorough": 8000}, fuzz={"thorough": 60.0}),
+        strategy=lambda tier: feedback_case(), examples={"quick": 1600, "thorough": 16000}, fuzz={"thorough": 60.0}),
 ]
